@@ -38,7 +38,7 @@ func NewEnv(prep bool) (*Env, error) {
 	if err := db.AutoMigrate(fam.AllModels...); err != nil {
 		return nil, err
 	}
-	return &Env{DB: db, Rec: rec, SQL: sqldb, HR: &fam.Recorder{Rec: rec, Probe: true, Mutate: true}, Prep: prep}, nil
+	return &Env{DB: db, Rec: rec, SQL: sqldb, HR: &fam.Recorder{Rec: rec, Probe: true, Mutate: true, Audit: true}, Prep: prep}, nil
 }
 
 func ip(v int64) *int64 { return &v }
@@ -137,6 +137,7 @@ type Op struct {
 	Write     bool
 	Main      string // main table
 	MainModel string
+	SeqTx     bool // the operation legitimately runs several transactions one after the other (Save falling back to insert)
 	Expect    []Expect // hook expectations when it succeeds
 	NoHooks   bool     // SkipHooks session / column-update methods
 	Run       func(db *gorm.DB) error
@@ -242,7 +243,7 @@ func (e *Env) RunTrace(caseNo int, op Op, f Fault, ctxTag string, baselinePost s
 	for _, x := range op.Expect {
 		expect = append(expect, hx.M{"model": x.Model, "rec": x.Rec, "kind": x.Kind})
 	}
-	out := []hx.M{{"ev": "OpStart", "case": caseNo, "op": op.Name, "kind": op.Kind, "write": op.Write, "main": op.Main, "mainmodel": op.MainModel, "checkhooks": op.Kind != "assoc" || len(op.Expect) > 0,
+	out := []hx.M{{"ev": "OpStart", "case": caseNo, "op": op.Name, "kind": op.Kind, "write": op.Write, "main": op.Main, "mainmodel": op.MainModel, "seqtx": op.SeqTx, "checkhooks": op.Kind != "assoc" || len(op.Expect) > 0,
 		"nohooks": op.NoHooks, "expect": expect, "fault": f.Mode, "k": f.K, "ctx": ctxTag, "prep": e.Prep}}
 	hi := 0
 	for _, ev := range evs {
